@@ -49,7 +49,7 @@ def setup_worker() -> None:
     import zorg.service.swog._executor as ex
 
     for n in ("_group_notes_by", "_order_notes_by", "_select", "_get_header", "_select_note", "_select_tags", "_select_file"):
-        harness.COUNTERS.watch(n, getattr(ex, n))
+        harness.COUNTERS.watch_attr(ex, n)
 
 
 def plan(tier: str, seed: int) -> list[dict]:
